@@ -31,7 +31,7 @@ Spec == Init /\ [][Next]_vars
 \* constant zero divisor, negative constant shift count or exponent
 A2(e) == e.args[2][1]
 TextError(e) ==
-    /\ e.op = "bin" /\ Len(e.args) = 2 /\ Len(e.args[2]) = 1 /\ A2(e).k \in {"pyint", "pybool"} /\ ~A2(e).w
+    /\ e.op = "bin" /\ Len(e.args) = 2 /\ Len(e.args[2]) = 1 /\ A2(e).k \in {"pyint", "pybool", "pyfloat"} /\ ~A2(e).w
     /\ \/ e.name \in {"truediv", "floordiv", "mod", "divmod"} /\ A2(e).v = 0
        \/ e.name \in {"lshift", "rshift", "pow"} /\ A2(e).v < 0
 
